@@ -17,6 +17,8 @@ CONSTANTS M, L, Cap, Hdr, Ent,
           DeltaLimit,       \* "both" as built: -L..L | deviation "plusone": L + 1 is still put into the run (the stored 16 bit value wraps)
           CountLimit,       \* "M" as built | deviation "Mplus1"
           BlockChecked,     \* TRUE as built: an entry in another inode block ends the run
+          IndexAfterHeader, \* deviation: the index entry of a run takes the metadata block number AFTER the header was appended (wrong when the
+                            \* header ends at or crosses the block boundary)
           SizeFromOffset    \* TRUE as built: the size budget of a run starts at (offset + header) mod Cap | FALSE: at 0
 
 Entry == [blk : Blocks, num : Nums, nlen : NameLens]
@@ -47,7 +49,7 @@ Runs(list, i, off) ==
            c == Conseq(list, i, list[i], start, 0)
            body == [k \in 1..c |-> [blk |-> list[i + k - 1].blk, delta |-> Wrap(list[i + k - 1].num - list[i].num), nlen |-> list[i + k - 1].nlen]]
            bytes == Hdr + c * Ent + NameSum(body, c)
-       IN <<[count |-> c, blk |-> list[i].blk, base |-> list[i].num, at |-> off % Cap, ents |-> body]>> \o Runs(list, i + c, off + bytes)
+       IN <<[count |-> c, blk |-> list[i].blk, base |-> list[i].num, at |-> off % Cap, pos |-> off, ents |-> body]>> \o Runs(list, i + c, off + bytes)
 
 RECURSIVE Decode(_)
 Decode(r) == IF r = <<>> THEN <<>>
@@ -68,5 +70,11 @@ OneBlockPerRun == \A i \in 1..Len(R) : \A k \in 1..R[i].count : R[i].ents[k].blk
 RunInsideBlock == \A i \in 1..Len(R) :
                     LET sz == ((R[i].at + Hdr) % Cap) + R[i].count * Ent + NameSum(R[i].ents, R[i].count)
                     IN R[i].count > 1 => sz <= Cap
-EmitOK == Emit => PrintT(<<"RESULT", ToJson([input |-> input, runs |-> [i \in 1..Len(R) |-> [count |-> R[i].count, blk |-> R[i].blk, base |-> R[i].base]]])>>)
+(* the directory index of the extended inode (add_header): one entry per run - byte offset of the header inside the listing, the metadata block *)
+(* of the directory table in which the header STARTS (counted from the block the listing starts in), the name of the run's first entry           *)
+Index == [i \in 1..Len(R) |-> [index |-> R[i].pos - input.off,
+                               blkno |-> (IF IndexAfterHeader THEN R[i].pos + Hdr ELSE R[i].pos) \div Cap,
+                               nlen |-> R[i].ents[1].nlen]]
+IndexPointsAtHeaders == \A i \in 1..Len(R) : Index[i].blkno = R[i].pos \div Cap /\ (i > 1 => Index[i].index > Index[i - 1].index)
+EmitOK == Emit => PrintT(<<"RESULT", ToJson([input |-> input, runs |-> [i \in 1..Len(R) |-> [count |-> R[i].count, blk |-> R[i].blk, base |-> R[i].base]], index |-> Index])>>)
 =============================================================================
